@@ -11,9 +11,11 @@ typedef struct {
     int limit;          /* max ranges per request */
     int style;          /* spelling of multipart responses */
     int piece;          /* body bytes per callback invocation (0 = 16384) */
+    long abort_at;      /* >= 0: the first chunk response is cut off after this many body bytes (connection dropped);
+                           the client resets its zckDL and goes round the loop again.  -1 = never */
 } upd_cfg;
 typedef struct {
-    int status, nreq, missing_end, failed_end, complete_at_scan;
+    int status, nreq, missing_end, failed_end, complete_at_scan, aborted;
     long body_bytes;
     struct { char kind; char range[1024]; } req[UPD_MAXREQ];
     char flags_scan[80], flags_copy[80], flags_end[80], err[200];
